@@ -382,3 +382,33 @@ pub fn file_read(f: &mut FFile, buf: &mut [u8]) -> Result<usize, FErr> {
 pub fn file_flush(f: &mut FFile) -> Result<(), FErr> {
     f.flush()
 }
+
+// ---------------------------------------------------------------------------------------------------------
+// a logger that accepts every level: the arguments of every log statement of the library are evaluated and formatted
+
+struct SinkLogger;
+impl log::Log for SinkLogger {
+    fn enabled(&self, _: &log::Metadata) -> bool {
+        true
+    }
+    fn log(&self, r: &log::Record) {
+        // format the message as a real logger would (Debug impls of the library run here), then throw it away
+        use std::fmt::Write;
+        struct Null;
+        impl std::fmt::Write for Null {
+            fn write_str(&mut self, _: &str) -> std::fmt::Result {
+                Ok(())
+            }
+        }
+        let _ = write!(Null, "{}", r.args());
+    }
+    fn flush(&self) {}
+}
+static SINK: SinkLogger = SinkLogger;
+
+/// process-wide: all cases evaluated concurrently must agree (one block = one setting)
+pub fn set_logging(on: bool) {
+    let _ = log::set_logger(&SINK);
+    log::set_max_level(if on { log::LevelFilter::Trace } else { log::LevelFilter::Off });
+}
+
